@@ -26,6 +26,9 @@ M("C20", "update-noreset", NODE, "        self.routes = {}\n        for node in 
 M("C20", "route-steps", NODE, "Route(node, route.steps + 1)", "Route(node, route.steps)", "R20.4")
 M("C20", "lock-dropped", NODE, "                node._update(already_updated)", "                node._update()", "R20.4")
 M("C20", "path-neighbor", NODE, "obj = obj.routes[goal].direction", "obj = next(iter(obj.neighbors))", "R20.3")
+M("C20", "orbitframe-parent-centre", "beyond/frames/frames.py", "        ref_orbit.frame.center,\n", "        parent.center,\n", "R20.5")
+M("C20", "station-axes-other-frame", "beyond/frames/stations.py", "        parent_frame.orientation,\n        coordinates,", "        orient.ITRF,\n        coordinates,", "R20.5")
+R("C20", "orbitframe-args-one-line", "beyond/frames/frames.py", "    center_obj.add_link(\n        ref_orbit.frame.center,\n        ref_orbit.frame.orientation,\n        ref_orbit,\n    )", "    center_obj.add_link(ref_orbit.frame.center, ref_orbit.frame.orientation, ref_orbit)")
 M("C20", "station-other-parent", STATIONS, "        o + parent_frame.orientation", "        o + orient.EME2000", "R20.2")
 M("C20", "loo-key-reversed", ORIENT, 'mtd = f"{name}_to_{parent.orientation.name}"', 'mtd = f"{parent.orientation.name}_to_{name}"', "R20.2")
 M("C20", "center-key", CENTER, 'f"{self.name}_to_{center.name}"', 'f"{center.name}_to_{self.name}"', "R20.2")
@@ -186,6 +189,9 @@ M("C08", "inclusive-dropped", BASE, "            for date in Date.range(start, s
 M("C09", "range-exclusive", INTERP, "        if not (self.xs[0] <= x <= self.xs[-1]):", "        if not (self.xs[0] <= x < self.xs[-1]):", "R09.1")
 M("C09", "swallowed", INTERP, "            else:\n                raise e", "            else:\n                return None", "R09.1")
 M("C09", "label-mjd", INTERP, "            return super().__call__(date._mjd)", "            return super().__call__(date.mjd)", "R09.1")
+M("C09", "bisect-nonstrict", INTERP, "            if x > xs[k]:", "            if x >= xs[k]:", "R09.4")
+M("C08", "bisect-nonstrict", INTERP, "            if x > xs[k]:", "            if x >= xs[k]:", "R09.4")
+M("C09", "isclose-bounds", INTERP, "        if not (self.xs[0] <= x <= self.xs[-1]):", "        if not (self.xs[0] <= x <= self.xs[-1] or np.isclose(x, self.xs[-1])):", "R09.1")
 M("C09", "window-stop", INTERP, "        stop = prev_idx + 1 + self.order // 2 + self.order % 2", "        stop = prev_idx + 1 + self.order // 2", "R09.3")
 M("C09", "edge-shift", INTERP, "            start -= stop - len(self.ys)", "            start -= stop - len(self.ys) + 1", "R09.3")
 M("C09", "linear-formula", INTERP, "        return y0 + (y1 - y0) * (x - x0) / (x1 - x0)", "        return y0 + (y1 - y0) * (x - x1) / (x1 - x0)", "R09.4")
@@ -214,6 +220,9 @@ M("C11", "azimut-phi", MEAS, 'self.path, orb.date, orb.copy(frame=self.frame, fo
 # ---- C12
 M("C12", "reader-slice", TLE, "        self.revolutions = int(second[63:68])", "        self.revolutions = int(second[64:68])", "R12.1")
 M("C12", "writer-width", TLE, "{M:8.4f} {n:11.8f}{revolutions:>5}", "{M:8.4f} {n:12.8f}{revolutions:>4}", "R12.1")
+M("C12", "unfloat-separate-rounding", TLE, '    num, _, exp = f"{flt:.{precision - 1}e}".partition("e")\n    exp = int(exp)\n    num = num.replace(".", "")\n', '    exp = int(np.floor(np.log10(abs(flt))))\n    num = f"{flt / 10 ** exp:.{precision - 1}f}".replace(".", "")\n', "R12.2")
+M("C12", "float-sign-lost", TLE, '        text = f"{text[0]}.{text[1:]}"', '        text = f"+.{text[1:]}"', "R12.2")
+R("C12", "unfloat-renamed-locals", TLE, '    num, _, exp = f"{flt:.{precision - 1}e}".partition("e")\n    exp = int(exp)\n    num = num.replace(".", "")\n\n    return f"{num}{exp+1:+d}"', '    mant, _, expo = f"{flt:.{precision - 1}e}".partition("e")\n    expo = int(expo)\n    mant = mant.replace(".", "")\n\n    return f"{mant}{expo+1:+d}"')
 M("C12", "ndot-scale", TLE, "        self.ndot = float(first[33:43]) * 2", "        self.ndot = float(first[33:43])", "R12.2")
 M("C12", "validation-late", TLE, "        self._check_validity(text)\n        self.text", "        self.text", "R12.3")
 M("C12", "checksum-minus", TLE, 'no_letters = line[:68].translate(tr_table).replace("-", "1")', 'no_letters = line[:68].translate(tr_table).replace("-", "0")', "R12.3")
